@@ -65,7 +65,7 @@ class C02(Prop):
         return dict(kind="xy", seed=rng.randint(0, 10**9), n=rng.randint(30, 60), nx=rng.randint(1, 3), ny=rng.randint(1, 2),
                     window=rng.choice([1, 1, 2, 3, 6]), stride=rng.choice([None, None, 2]),
                     transformer=rng.choice(["z-score", "yeo-johnson", None]), delay=rng.choice([0, 1]),
-                    cut=rng.randint(12, 25), missing=rng.random() < 0.5)
+                    cut=rng.randint(12, 25), missing=rng.random() < 0.5, drop_x=rng.random() < 0.5)
 
     # ------------------------------------------------------------------ event API
     def perturbed(self, case, after):
@@ -156,9 +156,17 @@ class C02(Prop):
                          columns=[f"P{i}" for i in range(case["ny"])])
         rate = pd.Series(rng.uniform(0, 0.03, size=n), index=idx, name="rate")
         cut = idx[case["cut"]]
+        if case.get("drop_x"):
+            # feature rows missing on dates the price table has (the cut date among them): the observation at such
+            # a date must come from the latest *earlier* feature row
+            keep = rng.random(n) > 0.15
+            keep[0] = True
+            keep[case["cut"]] = False
+            X = X.loc[keep]
         X2, Y2, rate2 = X.copy(), Y.copy(), rate.copy()
         later = idx > cut
-        X2.loc[later] = rng.normal(size=(later.sum(), case["nx"])) * 3
+        laterx = X2.index > cut
+        X2.loc[laterx] = rng.normal(size=(laterx.sum(), case["nx"])) * 3
         Y2.loc[later] = Y2.loc[later] * rng.uniform(0.8, 1.25, size=(later.sum(), case["ny"]))
         rate2.loc[later] = rng.uniform(0, 0.05, size=later.sum())
         acts = rng.uniform(-0.5, 0.5, size=(n, case["ny"]))
